@@ -38,6 +38,12 @@ def _run_case(case):
         ib, iq = dtu.filt_args(b, q, case.get('filt_form', 'names'), inverse=True)
         fwd = DTCWTForward(biort=fb, qshift=fq, J=J)
         inv = DTCWTInverse(biort=ib, qshift=iq)
+    if case.get('other_precision_first'):
+        # earlier in the modules' lives: one call each with data of the other precision (outcome ignored)
+        r.label('after_other_precision_call')
+        dwtu.other_precision_call(fwd, [1, 1, 8, 8], tdt)
+        dwtu.other_precision_call(inv, None, tdt, lambda dt: (
+            torch.ones(1, 1, 8, 8, dtype=dt), [torch.ones(1, 1, 6, 4, 4, 2, dtype=dt)]))
     inputs = []
     if H * W <= 192:
         r.label('full_operator')
